@@ -235,6 +235,52 @@ def run(chk):
         chk.part('flush_extension', states_replayed=ftot)
         chk.cov['traces_validated_against_impl'] += ftot
         os.remove(flres.dump_path)
+    # (B') two detectors of the same class alive at once, their chunks arriving in every merge order (Interleave.tla): each ends as it does alone
+    ires = tlc.run(os.path.join(SPEC, 'common', 'Interleave.tla'), os.path.join(SPEC, 'common', 'MC_Interleave_33.cfg'), dump=True, timeout=300)
+    chk.tlc('MC_Interleave_33.cfg', ires, 'merge orders of two call histories of three calls each; an object depends on its own calls only')
+    if ires.dump_path and os.path.exists(ires.dump_path):
+        from ..tlaparse import parse_dump
+        orders = [st['order'] for st in parse_dump(ires.dump_path) if st['ia'] == 3 and st['ib'] == 3]
+        os.remove(ires.dump_path)
+        irng = random.Random(chk.seed * 31 + 3)
+        npairs = 6 if quick else 40
+        nint = 0
+        for _ in range(npairs):
+            sigs = [random_signal(irng, irng.randint(6, 14), irng.choice([2, 3, 5])) for _ in 'AB']
+            cutss = []
+            for sg in sigs:
+                b = sorted(irng.sample(range(1, len(sg)), 2))
+                cutss.append([b[0], b[1] - b[0], len(sg) - b[1]])
+            for kind in '34F':
+                alone = [_code_obs(kind, sg, (len(sg),))[0] for sg in sigs]
+                for order in orders:
+                    nint += 1
+                    dets = [rf.new(kind), rf.new(kind)]
+                    pos, k = [0, 0], [0, 0]
+                    bufs = [np.empty(32), np.empty(32)]
+                    try:
+                        for who in order:
+                            w = 0 if who == 'A' else 1
+                            c = cutss[w][k[w]]
+                            bufs[w][:c] = np.asarray(sigs[w][pos[w]:pos[w] + c], dtype=np.float64)
+                            dets[w].process(bufs[w][:c])
+                            bufs[w][:] = 7.7e77
+                            pos[w] += c
+                            k[w] += 1
+                        got = [rf.project(d, kind) for d in dets]
+                    except Exception as ex:
+                        chk.violation('detector raised when two detectors were fed alternately: %r' % ex, {'detector': kind, 'signals': sigs, 'chunks': cutss, 'order': list(order)}, part='interleaved')
+                        continue
+                    for w in (0, 1):
+                        if any(got[w].get(x) != alone[w].get(x) for x in ('cyc', 'rv', 'rix')):
+                            chk.violation('a detector fed in chunks while a second detector of the same class is fed in between differs from its one-piece run',
+                                          {'detector': kind, 'signals': sigs, 'chunks': cutss, 'order': list(order), 'which': 'AB'[w]}, alone[w], got[w], part='interleaved')
+                            break
+                    else:
+                        chk.nontrivial(('interleaved', kind, tuple(sigs[0]), tuple(sigs[1]), order))
+        chk.evals(nint)
+        chk.cov['traces_validated_against_impl'] += nint
+        chk.part('interleaved', runs=nint, merge_orders=len(orders))
     # (C) recorded executions of longer signals, validated by TLC against the spec
     rng = random.Random(chk.seed * 7919 + 17)
     ntr = 240 if quick else 2400
@@ -291,7 +337,7 @@ def run(chk):
                        '(each reachable state = one chunked run); every state is replayed into ThreePoint/FourPoint/FKM detectors. '
                        'Non-trivial = >= 2 chunks and >= 1 closed cycle; distinct by (signal, partition[, detector]). '
                        'Recorded traces: seeded random integer signals (plateaus, ties) with random partitions, validated by TLC.')
-    chk.cov['rule'] += ' Chunks are handed over in ONE re-used read buffer that is overwritten after each call; for >= 3 chunks chunk_local_index is queried after every chunk.'
+    chk.cov['rule'] += ' Chunks are handed over in ONE re-used read buffer that is overwritten after each call; for >= 3 chunks chunk_local_index is queried after every chunk. Two detectors of the same class fed alternately in all 20 merge orders of 3 + 3 chunks (Interleave.tla) end as alone.'
     chk.cov['exhaustive'] = True
     chk.assumptions += ['integer-valued samples (exact in float64); real-valued behaviour is covered only through order/tie structure',
                         'TLC, SANY, CommunityModules Json; the TLA+ value parser and projection in harness/vh',
